@@ -2,7 +2,8 @@
 """Seeded-change bookkeeping.
   tools/seeded.py import <worktree> <prop>      copy <worktree>/mutants/m*/ to seeded/<prop>-m*/ after confirming, in a scratch
                                                 worktree, that the demo fails with the patch and passes without it (and running the listed tests)
-  tools/seeded.py check [<id-substring>]        for each seeded change: git apply to /repo, run ./vcheck <prop> --no-evidence, undo; report detection
+  tools/seeded.py check [<id-substring>]        for each seeded change: apply it to a scratch copy of /repo's source tree (removed afterwards), run
+                                                ./vcheck <prop> --no-evidence against that copy (PYVC_REPO/PYTHONPATH); report detection
 """
 import json
 import os
@@ -83,18 +84,23 @@ def do_check(only=None):
         meta = json.load(open(os.path.join(base, d, "meta.json")))
         props = meta.get("check_with") or [meta["property"]]
         patch = os.path.join(base, d, "patch.diff")
-        rc, out = sh(f"git -C /repo apply {patch}")
-        if rc != 0:
-            print(f"{d}: patch does not apply to /repo: {out[-200:]}")
-            continue
+        import shutil
+        import tempfile
+        scratch = tempfile.mkdtemp(prefix="pyvc_seeded_")
         try:
+            shutil.copytree("/repo/onnxscript", os.path.join(scratch, "onnxscript"), ignore=shutil.ignore_patterns("__pycache__"))
+            rc, out = sh(f"patch -p1 -s -f < {patch}", cwd=scratch)
+            if rc != 0:
+                print(f"{d}: patch does not apply to the current tree: {out[-200:]}")
+                continue
             det = []
+            env = dict(os.environ, PYVC_REPO=scratch, PYTHONPATH=scratch)
             for p in props:
-                rc, out = sh(f"{VERIF}/vcheck {p} --no-evidence")
+                rc, out = sh(f"{VERIF}/vcheck {p} --no-evidence", env=env)
                 failed = [l.split()[1] for l in out.splitlines() if l.startswith("FAILED-OBLIGATION")]
                 det.append((p, rc, failed[:3], [l for l in out.splitlines() if l.startswith("UNDECIDED") or l.startswith("CHECKER-ERROR")][:2]))
         finally:
-            sh("git -C /repo checkout -- .")
+            shutil.rmtree(scratch, ignore_errors=True)
         caught = any(rc == 1 for _, rc, _, _ in det)
         rows.append((d, caught, det))
         print(f"{d}: {'CAUGHT' if caught else 'MISSED'}  " + "; ".join(f"{p} exit {rc} {f} {u}" for p, rc, f, u in det))
